@@ -408,6 +408,8 @@ func TestFixedSpecs(t *testing.T) {
 		// symbol groups of equal size that agree under common digests (sum, xor, 31-polynomial): a table writer that
 		// abbreviates, caches or de-duplicates groups by such a digest confuses them
 		"grammar g;\nRA = /r[<>]/\nCA = /c[;\\]]/\nPA = /p[Ab]/\nQA = /q[BC]/\nSA = /s[ad]/\nTA = /t[bc]/\nUA = /u[ae]/\nVA = /v[bd]/\nWA = /w[\\x21\\x40]/\nXA = /x[\\x20\\x41]/\nstart = RA | CA | PA | QA | SA | TA | UA | VA | WA | XA;\n",
+		// symbols outside the basic plane and outside Unicode (eight-digit escapes), alone in a group and sharing one
+		"grammar g;\nEMO = /\\x0001F600\\x00010000\\x0010FFFF/\nNEG = /a(\\xFFFFFFFF|b)c/\nOUT = /[y\\xFFFFFFFF]z/\nBIG = /\\x00110000|\\x7FFFFFFF|\\x80000000/\nstart = EMO | NEG | OUT | BIG;\n",
 		// terminals whose text would end a comment or a string in the emitted source
 		"grammar g;\nstart = \"*/\" | \"/*\" | \"*/case(99):/*\" | \"//\" | \"`+`\" | \"\\\"+\\\"\" ;\n",
 	}
